@@ -80,7 +80,7 @@ for pid in sorted(TEXT):
 m["checks"] = checks
 m["not_applicable"] = [{"property_id": p, "reason": r} for p, r in NA.items()]
 m["engines"][0]["serves_properties"] = sorted(TEXT)
-m["notes"] = ("No hooks in /repo; ten unguarded fix: commits (see DESIGN.md 8.3 and known_findings.jsonl). "
+m["notes"] = ("No hooks in /repo; 22 unguarded fix: commits (see DESIGN.md 8.3 and known_findings.jsonl). "
               "exit codes: 0 held, 1 violation, 2 undecided, 3 checker failure.")
 json.dump(m, open("/verif/MANIFEST.json", "w"), indent=1)
 print(len(checks), "checks;", len(m["not_applicable"]), "not applicable")
